@@ -88,6 +88,7 @@ func (pool *TxPool) addTx(tx *types.Transaction) error {
 func (pool *TxPool) AddTx(tx *types.Transaction) error {
 	pool.RW.Lock()
 	defer pool.RW.Unlock()
+	defer verifTrace(pool, "AddTx", types.Transactions{tx}, len(pool.txs), 0, 0, nil)
 
 	return pool.addTx(tx)
 }
@@ -99,6 +100,7 @@ func (pool *TxPool) AddTxs(txs types.Transactions) int {
 	}
 	pool.RW.Lock()
 	defer pool.RW.Unlock()
+	defer verifTrace(pool, "AddTxs", txs, len(pool.txs), 0, 0, nil)
 
 	log.Debugf("Put %d transactions into pool", len(txs))
 	count := 0
@@ -119,6 +121,7 @@ func (pool *TxPool) GetTxs(time uint32, size int) types.Transactions {
 
 	pool.RW.Lock()
 	defer pool.RW.Unlock()
+	defer verifTrace(pool, "GetTxs", nil, len(pool.txs), time, size, &result)
 
 	timeoutCount := 0
 	for _, tx := range pool.txs {
@@ -172,6 +175,7 @@ func (pool *TxPool) DelTxs(txs types.Transactions) {
 
 	pool.RW.Lock()
 	defer pool.RW.Unlock()
+	defer verifTrace(pool, "DelTxs", txs, len(pool.txs), 0, 0, nil)
 
 	log.Debugf("Delete %d transactions from pool", len(txs))
 
